@@ -5,6 +5,7 @@
 //  file LICENSE_1_0.txt or copy at http://www.boost.org/LICENSE_1_0.txt)
 
 #include <pika/config.hpp>
+#include <pika/config/verif_hooks.hpp>
 #include <pika/assert.hpp>
 #include <pika/coroutines/coroutine.hpp>
 #include <pika/functional/bind.hpp>
@@ -38,10 +39,12 @@ namespace pika::threads::detail {
 
         // make sure that the thread has not been suspended and set active again
         // in the meantime
+        PIKA_VERIF_POINT(::pika::verif::sas_entry, get_thread_id_data(thrd));
         thread_state current_state = get_thread_id_data(thrd)->get_state();
 
         if (current_state.state() == previous_state.state() && current_state != previous_state)
         {
+            PIKA_VERIF_POINT(::pika::verif::sas_abort, get_thread_id_data(thrd));
             // NOLINTNEXTLINE(bugprone-branch-clone)
             PIKA_LOG(info,
                 "set_active_state: thread is still active, however it was non-active since the "
@@ -111,6 +114,7 @@ namespace pika::threads::detail {
             {
                 if (retry_on_active)
                 {
+                    PIKA_VERIF_POINT(::pika::verif::sts_active_helper, get_thread_id_data(thrd));
                     // schedule a new thread to set the state
                     // NOLINTNEXTLINE(bugprone-branch-clone)
                     PIKA_LOG(info,
@@ -208,6 +212,7 @@ namespace pika::threads::detail {
                 get_thread_id_data(thrd)->get_description(), get_thread_state_name(new_state),
                 get_thread_state_name(previous_state_val));
 
+            PIKA_VERIF_POINT(::pika::verif::sts_before_cas, get_thread_id_data(thrd));
             // So all what we do here is to set the new state.
             if (get_thread_id_data(thrd)->restore_state(new_state, new_state_ex, previous_state))
             {
@@ -234,6 +239,7 @@ namespace pika::threads::detail {
 
             auto* thrd_data = get_thread_id_data(thrd);
             auto* scheduler = thrd_data->get_scheduler_base();
+            PIKA_VERIF_POINT(::pika::verif::sts_before_schedule, thrd_data);
             scheduler->schedule_thread(thrd, schedulehint, false, thrd_data->get_priority());
             // NOTE: Don't care if the hint is a NUMA hint, just want to wake up
             // a thread.
